@@ -405,6 +405,34 @@ func c37ExtractMigratorFlow(x *ExtractCtx) error {
 		}
 	}
 
+	// ---- 4. the destination-emptiness probe of the per-bucket migration
+	mb := FindFunc(f, "", "migrateObjectsOfBucketFromSourceStorageToDestinationStorage")
+	if mb == nil {
+		return fmt.Errorf("migrateObjectsOfBucketFromSourceStorageToDestinationStorage not found")
+	}
+	x.Note("migrateObjectsOfBucket…", mb)
+	mbLocals := c37Locals(mb)
+	notEmptyCond, probe := "", ""
+	ast.Inspect(mb.Body, func(n ast.Node) bool {
+		is, ok := n.(*ast.IfStmt)
+		if !ok || !strings.Contains(x.Src(is.Body), "ErrDestinationNotEmpty") {
+			return true
+		}
+		notEmptyCond = x.Src(is.Cond)
+		ast.Inspect(is.Cond, func(m ast.Node) bool {
+			if id, ok := m.(*ast.Ident); ok {
+				if d, ok := mbLocals[id.Name]; ok && probe == "" {
+					probe = x.Src(d)
+				}
+			}
+			return true
+		})
+		return true
+	})
+	if notEmptyCond == "" || probe == "" {
+		return fmt.Errorf("no destination-not-empty test found in the per-bucket migration")
+	}
+
 	// ---- emit
 	w := x.Lean
 	fmt.Fprintf(w, "-- Source: %s (migrateSingleObject, objectMetadataFromSDKInput, StorageToS3UploadAPIClientAdapter).\n", rel)
@@ -444,6 +472,8 @@ func c37ExtractMigratorFlow(x *ExtractCtx) error {
 	fmt.Fprintf(w, "def adapterOptionGuards : List (String × List String) := [%s]\n\n", strings.Join(optionGuards, ", "))
 	fmt.Fprintf(w, "/-- (method, option field, value expression) of the options literal. -/\n")
 	fmt.Fprintf(w, "def adapterOptionValues : List (String × String × String) := [%s]\n\n", strings.Join(optionValues, ", "))
+	fmt.Fprintf(w, "/-- How the per-bucket migration decides that the destination bucket is not empty: the call whose\nresult is tested, and the test under which `ErrDestinationNotEmpty` is returned. -/\n")
+	fmt.Fprintf(w, "def destinationProbe : String := %s\ndef destinationNotEmptyCondition : String := %s\n\n", LeanStr(probe), LeanStr(notEmptyCond))
 	fmt.Fprintf(w, "end Pithos.Gen.MigratorFlow\n")
 	return nil
 }
